@@ -54,6 +54,18 @@ func planFor(id string) *Plan {
 
 var plans = []Plan{
 	{
+		ID: "C06", Level: "exploration",
+		Rule: "four generated domains: (A) HMAC layer - generated secret configuration (current + 0-3 rotated, optional too-short secret at any position, custom hash, entropy) x minting secret relation (current, rotated, foreign, equal in the first 32 bytes, short secret zero-padded) x one named edit (bit flip in either decoded part, truncation/extension, part swap between tokens, dot/padding/newline/alphabet/trailing-bit re-encodings) compared in both directions with a reference that recomputes the MAC over the decoded parts; (B) end to end - code, access, refresh and device code with one named edit (incl. other random part with a stored signature, foreign secret, prefix changes, secret rotation kept/dropped) presented where it is consumed; (C) JWT access tokens - alg none/None, HS256 keyed with the public key, other key, payload/header edits with the original signature, signature swaps, JSON serialisation - against the storage-backed and the stateless introspector; (D) minting - thousands of values per kind: distinct, configured entropy, no constant byte, no biased bit. Non-trivial: any case with an edit, a non-current minting secret or a short secret configured; distinct by (layer, edit, relation, configuration shape).",
+		Jobs: []Job{
+			{Test: "TestC06_HMACLayer", Shards: [2]int{6, 12}, Checks: [2]int{3000, 100000}, Timeout: [2]int{600, 3000}},
+			{Test: "TestC06_EndToEnd", Shards: [2]int{6, 12}, Checks: [2]int{500, 10000}, Timeout: [2]int{600, 3000}},
+			{Test: "TestC06_JWT", Shards: [2]int{4, 8}, Checks: [2]int{300, 6000}, Timeout: [2]int{600, 3000}},
+			{Test: "TestC06_Minting", Shards: [2]int{18, 18}, Timeout: [2]int{600, 3000}},
+		},
+		Fuzz: []Fuzz{{Target: "FuzzC06HMACValidate", Time: "60s"}},
+	},
+
+	{
 		ID: "C02", Level: "exploration",
 		Rule: "state machine weighted to sequences of redemption attempts on live codes: foreign confidential/public client, wrong secret, redirect_uri absent/equal/different/re-encoded (trailing slash, host case, %-encoding, default port, extra query), smuggled scope/audience parameters, code ages on both sides of the (short) code lifetime, followed by the rightful attempt; Recorder asserts that a refused attempt creates no token record; per-step introspection compares every token's client/subject/scopes/audience with what consent granted. Non-trivial: a rightful redemption after >=1 refused attempt, or a refused attempt in a history with smuggled parameters.",
 		Jobs: []Job{{Test: "TestC02_CodeBinding", Shards: [2]int{16, 16}, Checks: [2]int{120, 3000}, Steps: [2]int{30, 60}, Timeout: [2]int{600, 3000}}},
